@@ -47,7 +47,9 @@ def select(prop, t, sd):
     rec = corpus.recovery_family()
     if t == 'quick': rec = rec[sd % 2::2]
     pf = corpus.parts_family()
-    gs = cur + cov + nm + rec + pf + rnd
+    px = corpus.product_family()
+    if t == 'quick': px = px[sd % 5::5]        # a fifth per seed in the quick tier, all of them in the thorough tier
+    gs = cur + cov + nm + rec + pf + px + rnd
     if prop in ('C04', 'C05'):
         gs = [g for g in gs if not (g.features() & {'pred', 'assert'})]
     if prop == 'C08':
